@@ -272,7 +272,7 @@ def parse_vtt_pct(value: str):
     pct = float(m.group(1))
     # a percentage is between 0 and 100
     if pct <= 100:
-      return round(pct)
+      return pct
   return None
 
 # integer has at most 20 digits
